@@ -3,7 +3,7 @@ NEXT TNext
 CONSTANTS
   Models = {"sphere", "cylinder", "broad_peak", "sphere@hardsphere", "sphere+cylinder", "vscalar"}
   QSets = {"q1", "q2", "qxy"}
-  Requests = {"mono", "pd", "pdc", "pd2", "empty", "mode", "mag"}
+  Requests = {"mono", "pd", "pdn", "arr", "pdc", "pd2", "empty", "mode", "mag"}
   Slots = {"k1", "k2", "k3"}
   Wrappers = {"w1", "w2"}
   MaxOps = 100000
